@@ -1561,7 +1561,7 @@ Proof. vm_compute. split; reflexivity. Qed.
 Lemma config_independent sd op rest : 2 <= sd <= 8 ->
   run_case ([20; sd; op] :: rest) = run_case ([op] :: rest).
 Proof.
-  intros Hsd. unfold run_case. cbn [cfg_split]. rewrite Z.eqb_refl.
+  intros Hsd. unfold run_case. cbn [env_split Z.eqb andb Pos.eqb]. unfold run_cfg. cbn [cfg_split]. rewrite Z.eqb_refl.
   replace ((2 <=? sd) && (sd <=? 8)) with true; [reflexivity|].
   symmetry. apply andb_true_iff. split; apply Z.leb_le; lia.
 Qed.
@@ -1570,4 +1570,64 @@ Example config_independent_instance :
   run_case [[20; 8; 2]; [1607190000; 291; 1607203395; 3948]; [2; 1607213395; 3948]] = [ST_ERR; E_NOTFOUND] /\
   run_case [[20; 8; 2]; [1607190000; 291; 1607203395; 3948]; [2; 1607203395; 3948]] = [ST_OK; 2] /\
   run_case [[20; 8; 21]; [8; 1607203395; 3948; 1607213395; 3948]] = [ST_OK; 0].
+Proof. vm_compute. repeat split. Qed.
+
+(* ---- first access: the article count computed from the size of the index file ---- *)
+Lemma btotal_of_fsize es slack : 0 <= slack < REC_SZ -> btotal_of_size (fsize es slack) = lenZ es.
+Proof.
+  unfold btotal_of_size, fsize, REC_SZ. intros H.
+  assert (L : 0 <= lenZ es) by (unfold lenZ; lia). lia.
+Qed.
+
+Lemma bbs_page_at_len es cur k desc : bbs_page_at es (lenZ es) cur k desc = bbs_page es cur k desc.
+Proof.
+  unfold bbs_page_at, bbs_page, bbs_start.
+  destruct (lenZ es =? 0) eqn:E0.
+  - destruct cur as [[T nm]|]; [reflexivity|]. cbn [fbind]. unfold load_page. rewrite E0. reflexivity.
+  - destruct cur as [[T nm]|]; [reflexivity|]. cbn [fbind]. unfold load_page. rewrite E0.
+    destruct desc; [|reflexivity]. rewrite E0. cbn [andb Z.eqb]. reflexivity.
+Qed.
+
+Lemma first_access_page_eq_scan es slack cur k desc : 0 <= slack < REC_SZ -> sorted es -> names_unique es ->
+  bbs_page_first es slack cur k desc = bbs_page_spec es cur k desc.
+Proof.
+  intros Hs Hso Hu. unfold bbs_page_first. rewrite btotal_of_fsize by exact Hs.
+  rewrite bbs_page_at_len. apply bbs_page_eq_scan; assumption.
+Qed.
+
+(* a count that is NOT the number of records (e.g. the size of something else divided by 128) loses entries:
+   two records, count 0 - the listing is empty although the scan finds both *)
+Example first_access_wrong_size_loses :
+  bbs_page_at [Some (5, 1); Some (7, 2)] (btotal_of_size 8) None 2 true = FOk ([], None) /\
+  bbs_page_spec [Some (5, 1); Some (7, 2)] None 2 true = FOk ([(2, Some (7, 2)); (1, Some (5, 1))], None) /\
+  bbs_page_first [Some (5, 1); Some (7, 2)] 127 None 2 true = FOk ([(2, Some (7, 2)); (1, Some (5, 1))], None).
+Proof. vm_compute. repeat split. Qed.
+
+(* ---- path layout and overlapping operations are not inputs of the model ---- *)
+Lemma env_independent c v op rest : (c = 30 /\ 0 <= v <= 4 /\ op <> 7) \/ (c = 31 /\ 1 <= v <= 4) ->
+  run_case ([c; v; op] :: rest) = run_case ([op] :: rest).
+Proof.
+  intros [[-> [Hv Hop]]|[-> Hv]]; unfold run_case; cbn [env_split Z.eqb andb Pos.eqb].
+  - replace ((0 <=? v) && (v <=? 4)) with true by (symmetry; apply andb_true_iff; split; apply Z.leb_le; lia).
+    unfold run_cfg. cbn [cfg_split]. unfold run_first.
+    destruct op as [|q|q]; try reflexivity.
+    destruct q as [q|q|]; try reflexivity. destruct q as [q|q|]; try reflexivity. destruct q as [q|q|]; try reflexivity.
+    exfalso; apply Hop; reflexivity.
+  - replace ((1 <=? v) && (v <=? 4)) with true by (symmetry; apply andb_true_iff; split; apply Z.leb_le; lia).
+    unfold run_cfg. cbn [cfg_split]. reflexivity.
+Qed.
+
+Lemma first_access_case es hascur T nm k desc v : 0 <= v <= 4 ->
+  sorted (entries_of_wire es) -> names_unique (entries_of_wire es) ->
+  run_case [[30; v; 7]; es; [hascur; T; nm; k; desc]] = run_case [[9]; es; [hascur; T; nm; k; desc]].
+Proof.
+  intros Hv Hso Hu. unfold run_case. cbn [env_split Z.eqb andb Pos.eqb].
+  replace ((0 <=? v) && (v <=? 4)) with true by (symmetry; apply andb_true_iff; split; apply Z.leb_le; lia).
+  unfold run_cfg. cbn [cfg_split run_first run_base].
+  rewrite first_access_page_eq_scan; [reflexivity|unfold REC_SZ; lia|assumption|assumption].
+Qed.
+
+Example env_instance :
+  run_case [[30; 1; 7]; [1607190000; 291; 1607203395; 3948]; [0; 0; 0; 5; 1]] = [ST_OK; 2; 2; -1; 0] /\
+  run_case [[31; 1; 2]; [1607190000; 291; 1607203395; 3948]; [2; 1607203395; 3948]] = [ST_OK; 2].
 Proof. vm_compute. repeat split. Qed.
